@@ -15,11 +15,14 @@ import (
 	"sync"
 	"time"
 
+	"github.com/getlantern/bytemap"
 	"github.com/getlantern/golog"
 	"github.com/getlantern/wal"
 	"github.com/getlantern/zenodb"
 	"github.com/getlantern/zenodb/common"
 	"github.com/getlantern/zenodb/core"
+	"github.com/getlantern/zenodb/encoding"
+	"github.com/getlantern/zenodb/expr"
 )
 
 // Epoch is the fixed origin of all harness timestamps. It lies in the past of
@@ -570,4 +573,47 @@ func (d *DB) StateKey() string {
 		sb.WriteString("]")
 	}
 	return sb.String()
+}
+
+// StoredPeriods decodes which (key, period end) pairs hold a set value in the
+// table's file store and memstore. Period ends are ns relative to Epoch.
+func (d *DB) StoredPeriods(table string) (file, mem map[string]map[int64]bool, err error) {
+	table = strings.ToLower(table)
+	dump, err := zenodb.VerifDump(d.Z, table)
+	if err != nil || dump == nil {
+		return nil, nil, fmt.Errorf("dump: %v", err)
+	}
+	fields := zenodb.VerifTableFields(d.Z, table)
+	decode := func(rows []zenodb.VerifRow, layout []string) map[string]map[int64]bool {
+		out := map[string]map[int64]bool{}
+		for _, r := range rows {
+			key := KeyString(bytemap.ByteMap(r.Key).AsMap())
+			for i, col := range r.Cols {
+				if len(col) == 0 || i >= len(layout) {
+					continue
+				}
+				var ex expr.Expr
+				for _, f := range fields {
+					if f.String() == layout[i] {
+						ex = f.Expr
+					}
+				}
+				if ex == nil {
+					continue
+				}
+				seq := encoding.Sequence(col)
+				until := seq.Until().Sub(Epoch)
+				for p := 0; p < seq.NumPeriods(ex.EncodedWidth()); p++ {
+					if _, ok := seq.ValueAt(p, ex); ok {
+						if out[key] == nil {
+							out[key] = map[int64]bool{}
+						}
+						out[key][int64(until)-int64(p)*int64(dump.Resolution)] = true
+					}
+				}
+			}
+		}
+		return out
+	}
+	return decode(dump.FileRows, dump.Fields), decode(dump.MemRows, dump.MemFields), nil
 }
